@@ -56,6 +56,7 @@ Inductive leff (n : N) (y : ystate) : ystate -> Prop :=
     rrole s = Candidate -> rrole s' = Leader -> term s' = term s -> log s' = log s ->
     commit s' = commit s -> votes s' = votes s ->
     (forall f v, mget f (match_index s') = Some v -> v = 0) ->
+    majority_of n <= len (votes s) ->
     leff n y (mkY (mkX (updf (x_st x) m s') (x_sent x) (x_cast x) (x_elected x ++ [(term s, m)]))
                   (updf (y_gl y) (term s) (log s)))
 | LAppend : forall m s' sent' ext,
